@@ -104,8 +104,14 @@ def run_shard(spec, rec):
             rec.ev('zero-delta')
         rec.seen('resolve', mag(old), mag(a), mag(b), a == b)
         want = old + a + b
-        r1 = L._p_resolveConflict(old, old + a, old + b)
-        r2 = L._p_resolveConflict(old, old + b, old + a)
+        try:
+            r1 = L._p_resolveConflict(old, old + a, old + b)
+            r2 = L._p_resolveConflict(old, old + b, old + a)
+        except Exception as e:
+            rec.violation('resolution-raised', detail='%s: %s' % (
+                type(e).__name__, str(e)[:200]), old=bi(old), a=bi(a),
+                b=bi(b))
+            break
         if r1 != want or r2 != want or type(r1) is not int:
             rec.violation('resolution-lost-or-invented-an-update',
                           old=bi(old), a=bi(a), b=bi(b),
